@@ -42,7 +42,8 @@ enum Step {
     Abort(u64),
     CompleteCommit(u64),
     CompleteAbort(u64),
-    Timeouts(u64),
+    /// (clock, order in which the sweep logged the timed-out transactions -- filled in from the log)
+    Timeouts(u64, Vec<u64>),
     /// a further recover_from_wal() call on the LIVE coordinator
     Recover,
 }
@@ -56,7 +57,7 @@ impl Step {
             Step::Abort(t) => format!("XS (Abort {t})"),
             Step::CompleteCommit(t) => format!("XS (CompleteCommit {t})"),
             Step::CompleteAbort(t) => format!("XS (CompleteAbort {t})"),
-            Step::Timeouts(now) => format!("XS (Timeouts {now})"),
+            Step::Timeouts(now, order) => format!("XS (Timeouts {} {})", now, list(order.iter().map(|t| n(*t)))),
             Step::Recover => "XRecover".into(),
         }
     }
@@ -291,10 +292,20 @@ fn apply(c: &DistributedTxCoordinator, s: &mut Step, ids: &mut Ids, wal: &Path, 
         Step::Abort(t) => res_code(&c.abort(ids.tx(*t), "harness")),
         Step::CompleteCommit(t) => res_code(&c.complete_commit(ids.tx(*t))),
         Step::CompleteAbort(t) => res_code(&c.complete_abort(ids.tx(*t))),
-        Step::Timeouts(now) => {
+        Step::Timeouts(now, order) => {
             *clock = *now;
             verif_clock::set(Some(*clock));
+            let before = fs::metadata(wal).map(|m| m.len()).unwrap_or(0) as usize;
             let mut out: Vec<u64> = c.cleanup_timeouts().into_iter().map(|r| ids.tx_model(r)).collect();
+            // the order in which the sweep logged its aborts (HashMap iteration order) is an input
+            let after = fs::read(wal).unwrap_or_default();
+            *order = parse(&after[before.min(after.len())..])
+                .into_iter()
+                .filter_map(|(_, e)| match e {
+                    TxWalEntry::TxComplete { tx_id, .. } => Some(ids.tx_model(tx_id)),
+                    _ => None,
+                })
+                .collect();
             out.sort_unstable();
             let mut v = vec![3];
             v.extend(out);
@@ -333,7 +344,12 @@ fn inst_a(path: &Path, prefix: &[u8], ids: &Ids, t: u64) -> Option<AObs> {
         let r = match a.get(real).map(|x| x.phase) {
             Some(TxPhase::Prepared) => res_code(&a.commit(real)),
             Some(TxPhase::Committing) => res_code(&a.complete_commit(real)),
-            Some(_) => res_code(&a.complete_abort(real)),
+            Some(_) => {
+                // an abort that has begun is never turned into a commit: commit is refused, the abort completes
+                let mut r = res_code(&a.commit(real));
+                r.extend(res_code(&a.complete_abort(real)));
+                r
+            }
             None => {
                 let mut r = res_code(&a.commit(real));
                 r.extend(res_code(&a.abort(real, "probe")));
@@ -421,23 +437,64 @@ fn oracle_label(recs: &[(u64, TxWalEntry)], ids: &Ids, k: u64, ro: &Option<RObs>
     for m in 0..t {
         let real = ids.tx(m);
         let complete = surv.iter().any(|e| matches!(e, TxWalEntry::TxComplete { tx_id, .. } if *tx_id == real));
-        let prepared = surv.iter().any(|e| matches!(e, TxWalEntry::PhaseChange { tx_id, to: TxPhase::Prepared, .. } if *tx_id == real));
+        let begun = surv.iter().any(|e| matches!(e, TxWalEntry::TxBegin { tx_id, .. } if *tx_id == real));
+        let last_phase = surv.iter().rev().find_map(|e| match e {
+            TxWalEntry::PhaseChange { tx_id, to, .. } if *tx_id == real => Some(*to),
+            _ => None,
+        });
         let here = &o0[m as usize];
+        let pr = &probes[m as usize];
         if complete {
-            let pr = &probes[m as usize];
             if here.is_some() || !(pr.len() == 4 && pr[0] == 1 && pr[2] == 1) || touts.contains(&m) {
                 return Some(format!("tx {m} has a logged outcome but came back (pending {here:?}, commit/abort replies {pr:?}, timed out {})", touts.contains(&m)));
             }
-        } else if prepared {
+        } else if let Some(lp) = last_phase {
+            // the last logged decision (Prepared / Committing / Aborting) is what comes back
             match here {
-                None => return Some(format!("tx {m} was Prepared without outcome but did not come back")),
-                Some(_) => {
-                    if probes[m as usize] != vec![0] || o1[m as usize].is_some() {
-                        return Some(format!("tx {m} came back but could not be completed: {:?}", probes[m as usize]));
+                None => return Some(format!("tx {m}: last logged phase {lp:?}, no outcome logged, but it did not come back")),
+                Some((ph, _)) => {
+                    if *ph != phase_code(lp) {
+                        return Some(format!("tx {m}: last logged phase {lp:?} but it came back in phase {ph}"));
+                    }
+                    let want: Vec<u64> = if lp == TxPhase::Aborting { vec![1, 2, 0] } else { vec![0] };
+                    if *pr != want || o1[m as usize].is_some() {
+                        return Some(format!("tx {m} came back ({lp:?}) but could not be completed as decided: replies {pr:?}"));
                     }
                 }
             }
+        } else if begun && here.is_some() {
+            return Some(format!("tx {m} was still collecting votes (no phase record) but came back: {here:?}"));
         }
+    }
+    None
+}
+
+/// the live part of the oracle (Run.v live_oracle), only to label the evidence: the timeout sweep
+/// logs the abort of every id it reports before it returns; no completion call succeeds on a
+/// transaction whose outcome is already in the log
+fn live_label(recs: &[(u64, TxWalEntry)], ids: &Ids, steps: &[Step], outs: &[Vec<u64>], ends: &[u64], base: u64) -> Option<String> {
+    let mut prev = base;
+    for (i, s) in steps.iter().enumerate() {
+        let done = |upto: u64, m: u64, aborted_only: bool| {
+            let real = ids.tx(m);
+            recs.iter().any(|(e, x)| *e <= upto && matches!(x, TxWalEntry::TxComplete { tx_id, outcome } if *tx_id == real && (!aborted_only || *outcome == TxOutcome::Aborted)))
+        };
+        match s {
+            Step::Timeouts(..) => {
+                for m in outs[i].iter().skip(1) {
+                    if !done(ends[i], *m, true) {
+                        return Some(format!("step {i}: cleanup_timeouts reported tx {m} (abort queued for broadcast, locks released) but its log has no TxComplete{{Aborted}} for it"));
+                    }
+                }
+            }
+            Step::Commit(m, _) | Step::Abort(m) | Step::CompleteCommit(m) | Step::CompleteAbort(m) => {
+                if outs[i] == vec![0] && done(prev, *m, false) {
+                    return Some(format!("step {i}: {s:?} returned Ok although the log already holds an outcome for tx {m}"));
+                }
+            }
+            _ => {}
+        }
+        prev = ends[i];
     }
     None
 }
@@ -447,7 +504,9 @@ struct GenOut {
     human: String,
     fail: Option<String>,
 }
-type Pick = Box<dyn FnMut(u64, u64, &[u64]) -> u64>;
+/// (length after open, final length, end offset after each step, (end offset, target phase) of every
+/// PhaseChange record this generation appended) -> the crash point the next generation continues from
+type Pick = Box<dyn FnMut(u64, u64, &[u64], &[(u64, u64)]) -> u64>;
 
 #[allow(clippy::too_many_arguments)]
 fn run_generation(c: DistributedTxCoordinator, wal: &Path, scratch: &Path, steps: &mut [Step], ids: &mut Ids, t: u64, clock: &mut u64, pick: &mut Pick, dist: &mut Dist) -> (GenOut, Vec<u8>, u64, Vec<(CObs, Vec<Step>)>) {
@@ -487,7 +546,18 @@ fn run_generation(c: DistributedTxCoordinator, wal: &Path, scratch: &Path, steps
         }
     }
     let _ = fs::remove_file(scratch);
-    let chosen = pick(base, len, &ends);
+    if fail.is_none() {
+        fail = live_label(&recs, ids, steps, &outs, &ends, base);
+    }
+    let phase_ends: Vec<(u64, u64)> = recs
+        .iter()
+        .filter(|(e, _)| *e > base)
+        .filter_map(|(e, x)| match x {
+            TxWalEntry::PhaseChange { to, .. } => Some((*e, phase_code(*to))),
+            _ => None,
+        })
+        .collect();
+    let chosen = pick(base, len, &ends, &phase_ends);
     let term = format!(
         "({}, {}, {}, {}, {}, {}, {}, {}, {}, {})",
         now0,
@@ -506,15 +576,25 @@ fn run_generation(c: DistributedTxCoordinator, wal: &Path, scratch: &Path, steps
 }
 
 fn pick_end() -> Pick {
-    Box::new(|_b, len, _e| len)
+    Box::new(|_b, len, _e, _p| len)
 }
 fn pick_back(back: u64) -> Pick {
-    Box::new(move |b, len, _e| len.saturating_sub(back).max(b))
+    Box::new(move |b, len, _e, _p| len.saturating_sub(back).max(b))
+}
+/// inside the one-record window behind the first PhaseChange record to `to` (extra bytes of the next
+/// record survive as a torn tail); the end of the log when there is no such record
+fn pick_window(to: u64, extra: u64) -> Pick {
+    Box::new(move |_b, len, _e, p| p.iter().find(|(_, t)| *t == to).map_or(len, |(e, _)| (*e + extra).min(len)))
 }
 fn pick_random(mut r: Rng) -> Pick {
-    Box::new(move |b, len, ends| {
+    Box::new(move |b, len, ends, phases| {
         if len == b {
             return len;
+        }
+        // half of the time, when a decision was logged: inside the window right behind its phase record
+        if !phases.is_empty() && r.chance(1, 2) {
+            let (e, _) = *r.pick(phases);
+            return (e + r.below(9)).min(len).max(b);
         }
         match r.below(4) {
             0 => len,
@@ -583,18 +663,36 @@ fn run_case(cx: &mut Ctx, label: &str, mut gens: Vec<Vec<Step>>, mut picks: Vec<
     verif_clock::set(None);
 }
 
-/// seeded scenario: 1..3 transactions over shards 0..2, votes in any order with duplicates and late
-/// votes, decisions, occasional sweeps
-fn gen_scenario(r: &mut Rng, ngen: usize, next_tx: &mut u64, next_h: &mut u64, clock0: u64) -> (Vec<Vec<Step>>, Vec<u64>) {
+/// seeded scenario: 1..4 transactions over shards 0..2, votes in any order with duplicates and late
+/// votes, decisions, occasional sweeps.  `decisive` scenarios close vote sets more often (with a
+/// No vote half of the time: the coordinator then holds the transaction as Aborting in memory
+/// only), and every later generation opens with calls aimed at the RESTORED transactions
+/// (abort / commit / complete_* / a sweep after the timeout) before it goes on as usual
+fn gen_scenario(r: &mut Rng, ngen: usize, next_tx: &mut u64, next_h: &mut u64, clock0: u64, decisive: bool) -> (Vec<Vec<Step>>, Vec<u64>) {
     let mut gens = vec![];
     let mut gaps = vec![];
-    let mut live: Vec<(u64, Vec<u64>)> = vec![]; // (tx, participants) believed pending
+    let mut live: Vec<(u64, Vec<u64>, Vec<u64>)> = vec![]; // (tx, participants, shards that voted) believed pending
     let mut clock = clock0;
     for gi in 0..ngen {
         let gap = if gi == 0 { 0 } else { *r.pick(&[0u64, 100, 3000]) };
         gaps.push(gap);
         clock += gap;
         let mut steps = vec![];
+        if decisive && gi > 0 && !live.is_empty() {
+            for _ in 0..r.range(1, 3) {
+                let (t, _, _) = r.pick(&live).clone();
+                steps.push(match r.below(6) {
+                    0 | 1 => Step::Abort(t),
+                    2 => Step::Commit(t, vec![]),
+                    3 => Step::CompleteCommit(t),
+                    4 => Step::CompleteAbort(t),
+                    _ => {
+                        clock += 6000;
+                        Step::Timeouts(clock, vec![])
+                    }
+                });
+            }
+        }
         let nsteps = r.range(2, 9);
         for _ in 0..nsteps {
             let k = r.below(100);
@@ -603,35 +701,60 @@ fn gen_scenario(r: &mut Rng, ngen: usize, next_tx: &mut u64, next_h: &mut u64, c
                 if ps.is_empty() {
                     ps.push(r.below(3));
                 }
+                if decisive && ps.len() == 3 && r.chance(1, 2) {
+                    ps.pop();
+                }
                 steps.push(Step::Begin(*next_tx, ps.clone()));
-                live.push((*next_tx, ps));
+                live.push((*next_tx, ps, vec![]));
                 *next_tx += 1;
             } else if k < 62 && !live.is_empty() {
-                let (t, ps) = r.pick(&live).clone();
-                let sh = if r.chance(5, 6) { *r.pick(&ps) } else { r.below(NSHARD) };
-                if r.chance(3, 4) {
+                let li = r.below(live.len() as u64) as usize;
+                let (t, ps, voted) = live[li].clone();
+                let missing: Vec<u64> = ps.iter().copied().filter(|p| !voted.contains(p)).collect();
+                let strays: Vec<u64> = (0..NSHARD).filter(|x| !ps.contains(x)).collect();
+                let sh = if !strays.is_empty() && r.chance(1, 8) {
+                    // a vote of a shard the transaction was not begun with
+                    *r.pick(&strays)
+                } else if decisive && !missing.is_empty() && r.chance(4, 5) {
+                    *r.pick(&missing)
+                } else if r.chance(5, 6) {
+                    *r.pick(&ps)
+                } else {
+                    r.below(NSHARD)
+                };
+                let closing = missing.len() == 1 && missing[0] == sh;
+                let no = if decisive && closing { r.chance(1, 2) } else { r.chance(1, 4) };
+                if !no {
                     steps.push(Step::Lock(*next_h, t));
                     steps.push(Step::Vote(t, sh, V::Yes(*next_h)));
                     *next_h += 1;
                 } else {
                     steps.push(Step::Vote(t, sh, V::No));
                 }
+                if !live[li].2.contains(&sh) {
+                    live[li].2.push(sh);
+                }
+                // right after the vote set closed: the decision call, so that the every-byte crash
+                // sweep of this generation runs through its two-record sequence
+                if decisive && closing && r.chance(2, 3) {
+                    steps.push(if no || r.chance(1, 3) { Step::Abort(t) } else { Step::Commit(t, vec![]) });
+                }
             } else if k < 66 {
                 steps.push(Step::Vote(GHOST_TX, r.below(3), V::No));
             } else if k < 80 && !live.is_empty() {
-                let (t, _) = r.pick(&live).clone();
+                let (t, _, _) = r.pick(&live).clone();
                 steps.push(Step::Commit(t, vec![]));
             } else if k < 88 && !live.is_empty() {
-                let (t, _) = r.pick(&live).clone();
+                let (t, _, _) = r.pick(&live).clone();
                 steps.push(Step::Abort(t));
             } else if k < 93 && !live.is_empty() {
-                let (t, _) = r.pick(&live).clone();
+                let (t, _, _) = r.pick(&live).clone();
                 steps.push(if r.chance(1, 2) { Step::CompleteCommit(t) } else { Step::CompleteAbort(t) });
             } else if k < 96 {
                 steps.push(Step::Recover);
             } else {
                 clock += *r.pick(&[10u64, 2000, 6000]);
-                steps.push(Step::Timeouts(clock));
+                steps.push(Step::Timeouts(clock, vec![]));
             }
         }
         gens.push(steps);
@@ -679,7 +802,7 @@ fn main() {
                 Step::Begin(0, vec![0, 1]), Step::Begin(1, vec![2]), Step::Lock(0, 0), Step::Vote(0, 0, V::Yes(0)), Step::Lock(1, 1), Step::Vote(1, 2, V::Yes(1)),
                 Step::Lock(2, 0), Step::Vote(0, 1, V::Yes(2)), Step::Commit(0, vec![]), Step::Abort(1), Step::Begin(2, vec![0]), Step::Vote(2, 0, V::No),
             ],
-            vec![Step::Timeouts(1_000_000 + 3000 + 6000), Step::Begin(3, vec![1]), Step::Lock(3, 3), Step::Vote(3, 1, V::Yes(3))],
+            vec![Step::Timeouts(1_000_000 + 3000 + 6000, vec![]), Step::Begin(3, vec![1]), Step::Lock(3, 3), Step::Vote(3, 1, V::Yes(3))],
         ],
         vec![pick_back(40), pick_end()],
         vec![0, 3000],
@@ -725,13 +848,142 @@ fn main() {
         vec![0],
     );
 
+    // votes of shards the transaction was not begun with, arriving while it is still collecting
+    // votes (logged like every vote before it is looked at): a stray Yes, then both participants
+    // Yes -> Prepared with three votes; a stray No, then both participants Yes -> Aborting in
+    // memory; restart at every byte: what comes back holds the votes the live coordinator held
+    run_case(
+        &mut cx,
+        "corpus stray-votes-of-non-participants",
+        vec![
+            vec![
+                Step::Begin(0, vec![0, 1]), Step::Lock(0, 0), Step::Vote(0, 2, V::Yes(0)), Step::Lock(1, 0), Step::Vote(0, 0, V::Yes(1)), Step::Lock(2, 0), Step::Vote(0, 1, V::Yes(2)),
+                Step::Begin(1, vec![0, 1]), Step::Vote(1, 3, V::No), Step::Lock(3, 1), Step::Vote(1, 0, V::Yes(3)), Step::Lock(4, 1), Step::Vote(1, 1, V::Yes(4)),
+            ],
+            vec![Step::Commit(0, vec![]), Step::Commit(1, vec![]), Step::Abort(1)],
+        ],
+        vec![pick_end(), pick_end()],
+        vec![0, 100],
+    );
+
+    // ---- decisions made on RESTORED transactions, crashes inside the two-record abort / commit sequences ----
+    // a No vote closes the vote set: the coordinator holds the transaction as Aborting in memory only;
+    // abort() then logs Aborting -> Aborting + TxComplete; crash in the one-record window between
+    // them (and at every other byte); the restarted coordinator must hold it as Aborting, refuse
+    // commit, complete the abort; third incarnation: nothing left
+    run_case(
+        &mut cx,
+        "corpus abort-of-in-memory-aborting",
+        vec![
+            vec![Step::Begin(0, vec![0, 1]), Step::Lock(0, 0), Step::Vote(0, 0, V::Yes(0)), Step::Vote(0, 1, V::No), Step::Abort(0)],
+            vec![Step::Commit(0, vec![]), Step::CompleteAbort(0)],
+            vec![Step::Commit(0, vec![]), Step::Abort(0)],
+        ],
+        vec![pick_window(4, 3), pick_end(), pick_end()],
+        vec![0, 100, 100],
+    );
+    // the same window reached through the sweeper: the in-memory-Aborting transaction times out
+    run_case(
+        &mut cx,
+        "corpus sweep-of-in-memory-aborting",
+        vec![
+            vec![Step::Begin(0, vec![0]), Step::Begin(1, vec![1, 2]), Step::Lock(0, 1), Step::Vote(1, 1, V::Yes(0)), Step::Vote(1, 2, V::No), Step::Timeouts(1_000_000 + 6000, vec![])],
+            vec![Step::Commit(1, vec![]), Step::CompleteAbort(1), Step::Commit(0, vec![])],
+        ],
+        vec![pick_window(4, 0), pick_end()],
+        vec![0, 100],
+    );
+    // crash 1 inside commit() between Prepared -> Committing and TxComplete{Committed}; the restarted
+    // coordinator ABORTS the restored Committing transaction (abort() has no phase check) and logs it
+    // completely; every later incarnation must find nothing to commit
+    run_case(
+        &mut cx,
+        "corpus abort-of-restored-committing",
+        vec![
+            vec![Step::Begin(0, vec![0]), Step::Lock(0, 0), Step::Vote(0, 0, V::Yes(0)), Step::Commit(0, vec![])],
+            vec![Step::Abort(0), Step::Begin(1, vec![1])],
+            vec![Step::CompleteCommit(0), Step::Commit(0, vec![]), Step::Recover, Step::CompleteCommit(0)],
+        ],
+        vec![pick_window(2, 5), pick_end(), pick_end()],
+        vec![0, 100, 100],
+    );
+    // ... and the other way round: crash 1 inside abort() of a Prepared transaction; the restarted
+    // coordinator must not commit it; the abort is completed; crash; nothing left
+    run_case(
+        &mut cx,
+        "corpus abort-window-then-commit-attempt",
+        vec![
+            vec![Step::Begin(0, vec![0, 2]), Step::Lock(0, 0), Step::Vote(0, 0, V::Yes(0)), Step::Lock(1, 0), Step::Vote(0, 2, V::Yes(1)), Step::Abort(0)],
+            vec![Step::Commit(0, vec![]), Step::Abort(0)],
+            vec![Step::Commit(0, vec![]), Step::CompleteAbort(0)],
+        ],
+        vec![pick_window(4, 0), pick_back(4), pick_end()],
+        vec![0, 100, 100],
+    );
+    // a prepared transaction comes back, times out in the restarted coordinator (its abort goes out
+    // to the participants): the sweep must log it; after the next restart it cannot be committed
+    run_case(
+        &mut cx,
+        "corpus timeout-of-restored-prepared",
+        vec![
+            vec![Step::Begin(0, vec![0]), Step::Lock(0, 0), Step::Vote(0, 0, V::Yes(0)), Step::Begin(1, vec![1, 2]), Step::Lock(1, 1), Step::Vote(1, 1, V::Yes(1))],
+            vec![Step::Timeouts(1_000_000 + 100 + 6000, vec![])],
+            vec![Step::Commit(0, vec![]), Step::Abort(0), Step::Commit(1, vec![])],
+        ],
+        vec![pick_end(), pick_end(), pick_end()],
+        vec![0, 100, 100],
+    );
+    // a sweep in the FIRST incarnation over prepared, still-voting and in-memory-aborting transactions
+    run_case(
+        &mut cx,
+        "corpus timeout-live",
+        vec![
+            vec![
+                Step::Begin(0, vec![0]), Step::Lock(0, 0), Step::Vote(0, 0, V::Yes(0)), Step::Begin(1, vec![0, 1]), Step::Lock(1, 1), Step::Vote(1, 0, V::Yes(1)),
+                Step::Begin(2, vec![2]), Step::Vote(2, 2, V::No), Step::Timeouts(1_000_000 + 5001, vec![]), Step::Commit(0, vec![]),
+            ],
+            vec![Step::Commit(0, vec![]), Step::Commit(1, vec![]), Step::CompleteAbort(2)],
+        ],
+        vec![pick_back(9), pick_end()],
+        vec![0, 100],
+    );
+
+    // complete_commit / complete_abort write nothing: a transaction restored as Committing and finished
+    // with complete_commit is back as Committing after the next restart (its completion was never
+    // logged -- only commit() writes TxComplete{Committed}), where abort() / the sweeper abort it
+    run_case(
+        &mut cx,
+        "corpus complete-commit-is-not-durable (abort)",
+        vec![
+            vec![Step::Begin(0, vec![0]), Step::Lock(0, 0), Step::Vote(0, 0, V::Yes(0)), Step::Commit(0, vec![])],
+            vec![Step::Commit(0, vec![]), Step::CompleteCommit(0), Step::CompleteCommit(0)],
+            vec![Step::Abort(0), Step::CompleteCommit(0)],
+        ],
+        vec![pick_window(2, 0), pick_end(), pick_end()],
+        vec![0, 100, 100],
+    );
+    run_case(
+        &mut cx,
+        "corpus complete-commit-is-not-durable (sweep)",
+        vec![
+            vec![Step::Begin(0, vec![0]), Step::Lock(0, 0), Step::Vote(0, 0, V::Yes(0)), Step::Commit(0, vec![])],
+            vec![Step::CompleteCommit(0)],
+            vec![Step::Timeouts(1_000_000 + 200 + 6000, vec![]), Step::CompleteCommit(0)],
+        ],
+        vec![pick_window(2, 4), pick_end(), pick_end()],
+        vec![0, 100, 100],
+    );
+
     // ---------------- seeded ----------------
     let ncases = args.budget(24, 600);
     for ci in 0..ncases {
         let ngen = rng.range(1, 3) as usize;
         let mut next_tx = 0;
         let mut next_h = 0;
-        let (gens, gaps) = gen_scenario(&mut rng, ngen, &mut next_tx, &mut next_h, 1_000_000);
+        let decisive = ci % 2 == 1;
+        let ngen = if decisive { ngen.max(2) } else { ngen };
+        let (gens, gaps) = gen_scenario(&mut rng, ngen, &mut next_tx, &mut next_h, 1_000_000, decisive);
+        cx.dist.hit(if decisive { "case.decisive" } else { "case.plain" });
         let picks: Vec<Pick> = (0..ngen).map(|_| pick_random(rng.fork())).collect();
         cx.dist.hit(&format!("case.generations.{ngen}"));
         run_case(&mut cx, &format!("seed{} #{}", args.seed, ci), gens, picks, gaps);
